@@ -52,14 +52,14 @@ theorem C07_outcome_value (dec : Decoder) (r : Reply) (v : Json) (h : r.error = 
     succeeds: if the next frame that comes back is the reply `r` (whatever `r`
     is), `call()` returns exactly the outcome of `r`. -/
 theorem C07_outcome (p : Peer) (dec : Decoder) (s : CS) (meth : String) (params : Json) (r : Reply) (q : List Msg)
-    (hm : s.call.method = some meth) (hq : s.call.request = some params)
+    (hm : s.call.method = some meth) (hq : s.call.request = some params) (hu : s.call.unser = false)
     (hi : s.conn.idle = true) (hw : s.wire.canWrite = true)
     (hnext : (s.wire.accept p (mkRequest meth params false false false)).queue = .reply r :: q) :
     ∃ s', call p dec s = some (replyRes dec r, s') ∧
       ((∃ v, replyRes dec r = .ok v) → r.error = none) ∧
       (r.error ≠ none → replyRes dec r = .err (kindOf r)) := by
   unfold call
-  rw [send_ok p false false false s meth params hm hq hi hw]
+  rw [send_ok p false false false s meth params hm hq hu hi hw]
   simp only [Bool.false_eq_true, if_false]
   rw [recv_reply dec _ r q rfl rfl hnext]
   exact ⟨_, rfl, (C07_outcome_ok_iff dec r).1, C07_outcome_err dec r⟩
@@ -108,21 +108,88 @@ theorem C07_kind_other (r : Reply)
 /-! ### busy, once only, reusable -/
 
 /-- **C07 (busy)**: while the stream is not in the connection's slots, every
-    kind of send (`call`, `more`, `oneway`, `upgrade`) fails with
-    `ConnectionBusy` (or `MethodCalledAlready` for a spent object) and the wire
-    is untouched: not a byte is written, nothing is read. -/
+    kind of send (`call`, `more`, `oneway`, `upgrade`) fails — with
+    `ConnectionBusy` for a fresh call object (`MethodCalledAlready` for a spent
+    one, the serialization error for a request that does not serialize) — and
+    wire and connection are untouched: not a byte is written, nothing is read. -/
 theorem C07_busy_writes_nothing (p : Peer) (ow mo up : Bool) (s : CS) (h : s.conn.idle = false) :
     (send p ow mo up s).2.wire = s.wire ∧ (send p ow mo up s).2.conn = s.conn ∧
-    ((send p ow mo up s).1 = some .connectionBusy ∨ (send p ow mo up s).1 = some .methodCalledAlready) ∧
+    ((send p ow mo up s).1 = some .connectionBusy ∨ (send p ow mo up s).1 = some .methodCalledAlready ∨
+     (send p ow mo up s).1 = some .badJson) ∧
     (s.call.fresh → (send p ow mo up s).1 = some .connectionBusy) := by
   obtain ⟨h1, h2⟩ := send_not_idle p ow mo up s h
   refine ⟨by rw [h1], by rw [h1], h2, ?_⟩
-  rintro ⟨meth, params, hm, hq⟩
+  rintro ⟨meth, params, hm, hq, hu⟩
   unfold send
   have h' : (!s.conn.reader || !s.conn.writer) = true := by
     simp [Conn.idle] at h
     cases hr : s.conn.reader <;> cases hw : s.conn.writer <;> simp_all
-  simp [hm, hq, h']
+  simp [hm, hq, hu, h']
+
+/-- **C07 (a failed send leaves the connection untouched)**: for every state —
+    idle or busy connection, fresh or spent call object, request that
+    serializes or not, any flags — if `send` fails for a reason other than the
+    write itself (`MethodCalledAlready`, the serialization error of the
+    request, `ConnectionBusy`), the connection's slots are exactly as before,
+    nothing is written and nothing is read, and the call object holds no part
+    of the stream it did not hold before.  In particular a request that does
+    not serialize is refused *before* the connection is looked at: an idle
+    connection stays idle. -/
+theorem C07_failed_send_leaves_connection_untouched (p : Peer) (ow mo up : Bool) (s : CS) (e : EKind)
+    (hfail : (send p ow mo up s).1 = some e) (hio : e ≠ .io) :
+    (send p ow mo up s).2.conn = s.conn ∧ (send p ow mo up s).2.wire = s.wire ∧
+    (send p ow mo up s).2.call.reader = s.call.reader ∧ (send p ow mo up s).2.call.writer = s.call.writer ∧
+    (e = .methodCalledAlready ∨ e = .badJson ∨ e = .connectionBusy) ∧
+    (∀ meth params, s.call.method = some meth → s.call.request = some params → s.call.unser = true →
+       e = .badJson) := by
+  by_cases hf : s.call.method = none ∨ s.call.request = none
+  · rw [send_spent p ow mo up s hf] at hfail ⊢
+    simp at hfail
+    refine ⟨rfl, rfl, rfl, rfl, Or.inl hfail.symm, ?_⟩
+    intro meth params hm hq _
+    rcases hf with hf | hf
+    · rw [hm] at hf; cases hf
+    · rw [hq] at hf; cases hf
+  · have hm : ∃ meth, s.call.method = some meth := by
+      cases h : s.call.method with
+      | none => exact absurd (Or.inl h) hf
+      | some m => exact ⟨m, rfl⟩
+    have hq : ∃ params, s.call.request = some params := by
+      cases h : s.call.request with
+      | none => exact absurd (Or.inr h) hf
+      | some m => exact ⟨m, rfl⟩
+    obtain ⟨meth, hm⟩ := hm
+    obtain ⟨params, hq⟩ := hq
+    cases hu : s.call.unser with
+    | true =>
+      rw [send_unser p ow mo up s meth params hm hq hu] at hfail ⊢
+      simp at hfail
+      exact ⟨rfl, rfl, rfl, rfl, Or.inr (Or.inl hfail.symm), fun _ _ _ _ _ => hfail.symm⟩
+    | false =>
+      cases hi : s.conn.idle with
+      | false =>
+        have hb := (C07_busy_writes_nothing p ow mo up s hi).2.2.2 ⟨meth, params, hm, hq, hu⟩
+        rw [hb] at hfail
+        simp at hfail
+        rw [(send_not_idle p ow mo up s hi).1]
+        exact ⟨rfl, rfl, rfl, rfl, Or.inr (Or.inr hfail.symm), fun _ _ _ _ h' => by simp [hu] at h'⟩
+      | true =>
+        cases hw : s.wire.canWrite with
+        | true =>
+          rw [send_ok p ow mo up s meth params hm hq hu hi hw] at hfail
+          simp at hfail
+        | false =>
+          rw [send_wfail p ow mo up s meth params hm hq hu hi hw] at hfail
+          simp at hfail
+          exact absurd hfail.symm hio
+
+/-- non-vacuity: a request that does not serialize on an idle connection — the
+    error, the connection untouched, and the next call goes through -/
+example :
+    let s : CS := { conn := {}, call := { MCall.new "a.B" .null with unser := true }, wire := {} }
+    send politePeer false true false s = (some .badJson, { s with call := s.call.spent }) ∧
+    (call politePeer decValue { (send politePeer false true false s).2 with call := MCall.new "a.C" .null }).map (·.1)
+      = some (.ok (.obj [])) := by decide
 
 /-- the same for the public operations -/
 theorem C07_busy_operations (p : Peer) (dec : Decoder) (s : CS) (h : s.conn.idle = false) (hf : s.call.fresh) :
@@ -184,15 +251,18 @@ theorem C07_send_writes_at_most_one (p : Peer) (dec : Decoder) (ow mo up : Bool)
         | some m => exact ⟨m, rfl⟩
       obtain ⟨meth, hm⟩ := hm
       obtain ⟨params, hq⟩ := hq
+      cases hu : s.call.unser with
+      | true => left; rw [send_unser p ow mo up s meth params hm hq hu]
+      | false =>
       cases hi : s.conn.idle with
       | false => left; rw [(send_not_idle p ow mo up s hi).1]
       | true =>
         cases hw : s.wire.canWrite with
         | true =>
           right
-          refine ⟨meth, params, hm, hq, ?_, ?_⟩ <;> rw [send_ok p ow mo up s meth params hm hq hi hw]
+          refine ⟨meth, params, hm, hq, ?_, ?_⟩ <;> rw [send_ok p ow mo up s meth params hm hq hu hi hw]
           simp [Wire.accept]
-        | false => left; rw [send_wfail p ow mo up s meth params hm hq hi hw]
+        | false => left; rw [send_wfail p ow mo up s meth params hm hq hu hi hw]
   · intro r s' h
     unfold recv at h
     split at h
@@ -227,8 +297,8 @@ theorem C07_reusable_after_final (p : Peer) (dec : Decoder) (s : CS) (r : Reply)
     rw [recv_reply dec' s r q hr hw hq]
     simp only [hfin, if_false]
     exact ⟨_, rfl⟩
-  · rintro m ow mo up ⟨meth, params, hm, hq'⟩ hcw
-    have := send_ok p ow mo up ⟨⟨true, true⟩, m, { s.wire with queue := q }⟩ meth params hm hq' rfl hcw
+  · rintro m ow mo up ⟨meth, params, hm, hq', hu⟩ hcw
+    have := send_ok p ow mo up ⟨⟨true, true⟩, m, { s.wire with queue := q }⟩ meth params hm hq' hu rfl hcw
     exact congrArg Prod.fst this
 
 /-- the state after *any* reply is independent of the reply type and of
@@ -251,7 +321,7 @@ theorem C07_state_independent_of_payload (dec dec' : Decoder) (s : CS) (r : Repl
     are exactly those before plus whatever the peer adds), and leaves both
     slots in the connection: the reader never leaves it. -/
 theorem C04_client_oneway (p : Peer) (s : CS) (meth : String) (params : Json)
-    (hm : s.call.method = some meth) (hq : s.call.request = some params)
+    (hm : s.call.method = some meth) (hq : s.call.request = some params) (hu : s.call.unser = false)
     (hi : s.conn.idle = true) (hw : s.wire.canWrite = true) :
     ∃ s', oneway p s = (.unit, s') ∧
       s'.wire.log = s.wire.log ++ [mkRequest meth params true false false] ∧
@@ -260,7 +330,7 @@ theorem C04_client_oneway (p : Peer) (s : CS) (meth : String) (params : Json)
       s'.conn = { reader := true, writer := true } ∧
       s'.call.reader = s.call.reader := by
   unfold oneway
-  rw [send_ok p true false false s meth params hm hq hi hw]
+  rw [send_ok p true false false s meth params hm hq hu hi hw]
   refine ⟨_, rfl, ?_, rfl, ?_, rfl, rfl⟩
   · simp [Wire.accept]
   · exact ⟨_, by simp [Wire.accept]; rfl⟩
@@ -285,6 +355,11 @@ theorem C04_client_oneway_never_reads (p : Peer) (s : CS) :
         | some m => exact ⟨m, rfl⟩
       obtain ⟨meth, hm⟩ := hm
       obtain ⟨params, hq⟩ := hq
+      cases hu : s.call.unser with
+      | true =>
+        rw [send_unser p true false false s meth params hm hq hu]
+        exact ⟨⟨[], by simp⟩, rfl, rfl⟩
+      | false =>
       cases hi : s.conn.idle with
       | false =>
         rw [(send_not_idle p true false false s hi).1]
@@ -294,10 +369,10 @@ theorem C04_client_oneway_never_reads (p : Peer) (s : CS) :
           simp [Conn.idle] at hi; exact hi.1
         cases hw : s.wire.canWrite with
         | true =>
-          rw [send_ok p true false false s meth params hm hq hi hw]
+          rw [send_ok p true false false s meth params hm hq hu hi hw]
           refine ⟨⟨_, by simp [Wire.accept]; rfl⟩, by simp [hr], by simp [MCall.spent]⟩
         | false =>
-          rw [send_wfail p true false false s meth params hm hq hi hw]
+          rw [send_wfail p true false false s meth params hm hq hu hi hw]
           exact ⟨⟨[], by simp⟩, by simp [hr], by simp [MCall.spent]⟩
   unfold oneway
   split <;> (rename_i e; rw [e] at key; exact key)
@@ -472,7 +547,7 @@ theorem C07_exclusive_needs_obeys :
     (both slots present, nothing left under way); every further `next()` yields
     `None` and changes nothing; and a fresh call is then sent, not refused. -/
 theorem C05_iteration (p : Peer) (dec : Decoder) (s : CS) (meth : String) (params : Json) (rs : List Reply) (f : Reply)
-    (hm : s.call.method = some meth) (hq : s.call.request = some params)
+    (hm : s.call.method = some meth) (hq : s.call.request = some params) (hu : s.call.unser = false)
     (hi : s.conn.idle = true) (hw : s.wire.canWrite = true)
     (hempty : s.wire.queue = []) (hopen : s.wire.closed = false)
     (hpeer : (p s.wire.log (mkRequest meth params false true false)).1 = rs.map Msg.reply ++ [.reply f])
@@ -486,7 +561,7 @@ theorem C05_iteration (p : Peer) (dec : Decoder) (s : CS) (meth : String) (param
       (∀ n, nexts dec n s1 = some (List.replicate n .none, s1)) ∧
       (∀ (m : MCall) (ow mo up : Bool), m.fresh → s1.wire.canWrite = true →
         (send p ow mo up { s1 with call := m }).1 = none) := by
-  have hsend := send_ok p false true false { s with call := { s.call with continues := true } } meth params hm hq hi hw
+  have hsend := send_ok p false true false { s with call := { s.call with continues := true } } meth params hm hq hu hi hw
   have hqueue : (s.wire.accept p (mkRequest meth params false true false)).queue =
       rs.map Msg.reply ++ [.reply f] := by
     simp [Wire.accept, hempty, hopen, hpeer]
@@ -499,8 +574,8 @@ theorem C05_iteration (p : Peer) (dec : Decoder) (s : CS) (meth : String) (param
   have h1 := nexts_continues dec rs [.reply f] s0 rfl rfl rfl hqueue hall
   have h2 := nexts_stream dec rs f [] s0 rfl rfl rfl hqueue hall hf
   refine ⟨s0, _, _, hmore, rfl, by simp [s0, Wire.accept], h1, rfl, h2, rfl, rfl, rfl, nexts_ended dec _ rfl, ?_⟩
-  rintro m ow mo up ⟨meth', params', hm', hq'⟩ hcw
-  have := send_ok p ow mo up ⟨⟨true, true⟩, m, { s0.wire with queue := [] }⟩ meth' params' hm' hq' rfl hcw
+  rintro m ow mo up ⟨meth', params', hm', hq', hu'⟩ hcw
+  have := send_ok p ow mo up ⟨⟨true, true⟩, m, { s0.wire with queue := [] }⟩ meth' params' hm' hq' hu' rfl hcw
   exact congrArg Prod.fst this
 
 /-- non-vacuity of `C05_iteration` and `C07_outcome`: a concrete peer, two
